@@ -96,7 +96,7 @@ func sameRows(a, b *mstore.MboxDump) bool {
 	return true
 }
 
-func observe(lits *mstore.Literals, o mstore.Op, ob mstore.Obs, before, after mstore.Dump) []violation {
+func observe(lits *mstore.Literals, o mstore.Op, ob mstore.Obs, before, after mstore.Dump, dedup bool) []violation {
 	var vs []violation
 	rb, ra := before.Get(mstore.RecoveryName), after.Get(mstore.RecoveryName)
 	if ra == nil {
@@ -183,18 +183,28 @@ func observe(lits *mstore.Literals, o mstore.Op, ob mstore.Obs, before, after ms
 				break
 			}
 			dst := after.Get(o.Name2)
-			if len(ob.Pairs) != len(sel) {
-				vs = append(vs, violation{Kind: "moved-out-partially", Detail: fmt.Sprintf("%s: %d selected, announced %v", o, len(sel), ob.Pairs)})
-			}
-			for i, p := range ob.Pairs {
-				ok := false
-				for _, r := range dst.Rows {
-					if i < len(sel) && r.UID == p[1] && r.Lit == sel[i].Lit {
-						ok = true
+			if dedup {
+				// a de-duplicating remote may name messages that exist already: whatever it names, the bytes of every selected
+				// message must be in the destination afterwards
+				for _, s := range sel {
+					if countLit(dst, s.Lit) == 0 {
+						vs = append(vs, violation{Kind: "moved-out-not-present", Detail: fmt.Sprintf("%s (de-duplicating remote): the bytes of recovery UID %d are not in %q", o, s.UID, o.Name2)})
 					}
 				}
-				if !ok {
-					vs = append(vs, violation{Kind: "moved-out-not-present", Detail: fmt.Sprintf("%s: pair %v: bytes not found in %q", o, p, o.Name2)})
+			} else {
+				if len(ob.Pairs) != len(sel) {
+					vs = append(vs, violation{Kind: "moved-out-partially", Detail: fmt.Sprintf("%s: %d selected, announced %v", o, len(sel), ob.Pairs)})
+				}
+				for i, p := range ob.Pairs {
+					ok := false
+					for _, r := range dst.Rows {
+						if i < len(sel) && r.UID == p[1] && r.Lit == sel[i].Lit {
+							ok = true
+						}
+					}
+					if !ok {
+						vs = append(vs, violation{Kind: "moved-out-not-present", Detail: fmt.Sprintf("%s: pair %v: bytes not found in %q", o, p, o.Name2)})
+					}
 				}
 			}
 			if o.Kind == "move" {
